@@ -217,12 +217,30 @@ def iter_canon(n: ast.AST, consumed_at_once: bool = False) -> ast.AST:
                     isinstance(z, (ast.GeneratorExp, ast.ListComp)):
                 n = z
                 continue
-        if isinstance(n, ast.GeneratorExp) and len(n.generators) == 1 and not n.generators[0].ifs \
+        if isinstance(n, (ast.GeneratorExp, ast.ListComp) if consumed_at_once else ast.GeneratorExp) and len(n.generators) == 1 and not n.generators[0].ifs \
                 and isinstance(n.elt, ast.Name) and isinstance(n.generators[0].target, ast.Name) \
                 and n.elt.id == n.generators[0].target.id:
             n = n.generators[0].iter
             continue
         return n
+
+
+def _int_arith(e) -> bool:
+    """an expression that is an int whenever its leaves are: built from //, %, len(), int literals, +, -, *, ** of such,
+    and containing at least one // or len()"""
+    def ok(x):
+        if isinstance(x, ast.Constant):
+            return isinstance(x.value, int) and not isinstance(x.value, bool)
+        if isinstance(x, ast.Name):
+            return True
+        if isinstance(x, ast.Call) and isinstance(x.func, ast.Name) and x.func.id == 'len':
+            return True
+        if isinstance(x, ast.BinOp) and isinstance(x.op, (ast.FloorDiv, ast.Mod, ast.Add, ast.Sub, ast.Mult, ast.Pow)):
+            return ok(x.left) and ok(x.right)
+        return False
+    has = any((isinstance(x, ast.BinOp) and isinstance(x.op, (ast.FloorDiv, ast.Mod))) or
+              (isinstance(x, ast.Call) and isinstance(x.func, ast.Name) and x.func.id == 'len') for x in ast.walk(e))
+    return has and ok(e)
 
 
 def _gen_iter(it):
@@ -257,6 +275,10 @@ def cstr(n: ast.AST) -> str:
             i, v = ast.Name(id='_ei', ctx=ast.Load()), ast.Name(id='_ev', ctx=ast.Load())
             tgt = ast.Tuple(elts=[ast.Name(id='_ei', ctx=ast.Store()), ast.Name(id='_ev', ctx=ast.Store())], ctx=ast.Store())
             return cstr(ast.DictComp(key=i, value=v, generators=[ast.comprehension(target=tgt, iter=n.args[0], ifs=[], is_async=0)]))
+        if f == 'int' and len(cargs) == 1 and not n.keywords and _int_arith(cargs[0]):
+            return term(cargs[0])                               # int() of integer arithmetic
+        if f.split('.')[-1] in ('add_nodes_from', 'add_edges_from') and cargs:
+            cargs[0] = iter_canon(cargs[0], consumed_at_once=True)   # networkx: the first argument is only iterated
         if f in _ITER_CONSUMERS and cargs:
             once = f not in ('list', 'tuple', 'sorted', 'iter', 'reversed', 'zip', 'enumerate')   # these hand the items on
             cargs[0] = iter_canon(cargs[0], consumed_at_once=once)          # consumed as an iterable
